@@ -53,6 +53,8 @@ def canon(v):
         return "v:" + ",".join(f"{int(i)}={fnum(x)}" for i, x in zip(v.index, v.values))
     if isinstance(v, pd.DataFrame):
         return "f:" + "|".join(f"{c}[" + ",".join(f"{int(i)}={fnum(x)}" for i, x in zip(v.index, v[c].values)) + "]" for c in v.columns)
+    if isinstance(v, np.ndarray) and v.ndim == 0:
+        return "s:" + fnum(v)
     if isinstance(v, np.ndarray):
         return "a:" + ",".join(fnum(x) for x in v)
     if isinstance(v, (list, tuple)):
@@ -178,7 +180,7 @@ def ref_eff(eff, idx, a, prev):
         return ("l", [ref_frame(eff, idx, a)])
     if k == "agen":
         return ("a", [x for _, x in ref_gen(eff, idx, a)[1]])
-    if k == "mark":
+    if k in ("mark", "tmark"):
         return ("l", [("s", fr(eff.split(":")[1]))])
     if k == "app":
         return ("l", list(prev[1]) + [("s", fr(eff.split(":")[1]))])
@@ -256,7 +258,10 @@ def ref_union(items):
 
 
 # ----------------------------------------------------------------------------------------- implementation
-def _run(case):
+STEP_PIPE = "simulant_step_size"
+
+
+def _run(case, prior=False):
     impl.load()
     import functools
     import numpy as np
@@ -266,16 +271,23 @@ def _run(case):
     from vivarium.framework.values import (list_combiner, replace_combiner, rescale_post_processor,
                                            union_post_processor)
 
+    if case.get("prior") and not prior:
+        # an earlier simulation in this process with other registrations under the same names (its results are dropped)
+        _run(dict(case, prior=False, comps=[list(reversed(c)) for c in reversed(case["comps"])], mults=None, untrack=[],
+                  calls=[dict(c, where="outside", after=0, handle="get_value") for c in case["calls"][:1]], stepsize_calls=[], late_regs=[]), prior=True)
+
     TRACE = []       # probe invocations of the current call
     REG = []         # registration outcomes in execution order
     CALLS = []       # call observations in execution order
-    exact = case["stream"] == "exact"
+    HANDLES = {}     # pipelines as returned by register_value_producer / register_rate_producer
+    OBJECTS = {}     # (pipe, tag) -> the callable object that was registered (to register the very same object again)
+    out = {"error": None, "late": [], "stepsize": []}
 
     def fl(s):
         return float(F(s))
 
     def decode(role, args, kwargs):
-        """(idx list | None, a, prev) from what the probe received"""
+        """(idx | None, a | None, prev, extras) from what the probe received"""
         args = list(args)
         prev = None
         if role == "replace-mod" or role == "post":
@@ -284,11 +296,13 @@ def _run(case):
         if args and isinstance(args[0], pd.Index):
             idx = args.pop(0)
         a = kwargs["a"] if "a" in kwargs else (args.pop(0) if args else None)
-        return idx, a, prev, bool(args) or bool(set(kwargs) - {"a"})
+        extras = {"pos": [fnum(x) for x in args], "kw": {k: fnum(v) for k, v in sorted(kwargs.items()) if k != "a"}}
+        return idx, a, prev, extras
 
     def effect(eff, idx, a, prev):
         k = eff.split(":")[0]
         c = [fl(x) for x in eff.split(":")[1:]]
+        a = 0.0 if a is None else a
         if k in ("gen", "lgen"):
             v = (c[0] + c[2] * a) if idx is None else pd.Series([c[0] + c[1] * int(i) + c[2] * a for i in idx], index=idx, dtype=float)
             return v if k == "gen" else [v]
@@ -300,32 +314,48 @@ def _run(case):
             return np.array([c[0] + c[1] * int(i) + c[2] * a for i in idx], dtype=float)
         if k == "mark":
             return [c[0]]
+        if k == "tmark":
+            return (c[0],)
         if k == "app":
-            return list(prev) + [c[0]]
+            return (tuple(prev) + (c[0],)) if isinstance(prev, tuple) else list(prev) + [c[0]]
         if k == "sq":
             return prev * prev
         if k == "aff":
             if isinstance(prev, pd.DataFrame):
                 return pd.DataFrame({col: [c[0] * float(x) + c[1] + c[2] * int(i) + c[3] * a for i, x in zip(prev.index, prev[col].values)]
                                      for col in prev.columns}, index=prev.index, dtype=float)
-            if isinstance(prev, np.ndarray):
+            if isinstance(prev, np.ndarray) and prev.ndim == 1:
                 return np.array([c[0] * float(x) + c[1] + c[3] * a for x in prev], dtype=float)
             if isinstance(prev, pd.Series):
                 return pd.Series([c[0] * float(x) + c[1] + c[2] * int(i) + c[3] * a for i, x in zip(prev.index, prev.values)],
                                  index=prev.index, dtype=float)
-            return c[0] * prev + c[1] + c[3] * a
+            return c[0] * float(prev) + c[1] + c[3] * a
         raise ValueError(eff)
 
-    def mk_probe(tag, eff, role):
+    def shape_out(v, act):
+        """the same numbers in the dtype / scalar type the case asks for (never normalised to float64)"""
+        if isinstance(v, list):
+            return [shape_out(x, act) for x in v]
+        if act.get("dtype") == "int":
+            if isinstance(v, (pd.Series, pd.DataFrame, np.ndarray)):
+                if v.size and bool(np.all(np.asarray(v) == np.floor(np.asarray(v)))):
+                    return v.astype("int64")
+            elif isinstance(v, float) and v == int(v):
+                return int(v)
+        if isinstance(v, float):
+            return {"np": np.float64(v), "0d": np.array(v)}.get(act.get("scalar_kind"), v)
+        return v
+
+    def mk_probe(pipe, tag, eff, role, act):
         def f(*args, **kwargs):
-            idx, a, prev, extra = decode(role, args, kwargs)
+            idx, a, prev, extras = decode(role, args, kwargs)
             if role == "post":                 # post_processor(value, manager)
-                idx, a, prev, extra = None, 0.0, args[0], False
-            out = effect(eff, idx, a, prev)
-            TRACE.append({"tag": tag, "idx": None if idx is None else [int(i) for i in idx],
-                          "a": None if a is None else fnum(a), "extra": extra,
-                          "prev": None if prev is None else canon(prev), "out": canon(out)})
-            return out
+                idx, a, prev, extras = None, 0.0, args[0], {"pos": [], "kw": {}}
+            res = shape_out(effect(eff, idx, a, prev), act)
+            TRACE.append({"pipe": pipe, "tag": tag, "idx": None if idx is None else [int(i) for i in idx],
+                          "a": None if a is None else fnum(a), "extra": extras,
+                          "prev": None if prev is None else canon(prev), "out": canon(res)})
+            return res
         f.__name__ = "probe_" + tag
         return f
 
@@ -365,6 +395,43 @@ def _run(case):
             return _NamedCallable(f, "named_" + tag)
         return f
 
+    def register(b, act, comp):
+        """one registration call through the builder interface; returns the outcome class"""
+        try:
+            if act["op"] == "mod":
+                role = "list-mod" if act["eff"].split(":")[0] in ("gen", "fgen") else "replace-mod"
+                key = (act["pipe"], act["tag"])
+                if key not in OBJECTS or not act.get("same_object"):
+                    OBJECTS[key] = as_callable(act.get("callable", "function"), mk_probe(act["pipe"], act["tag"], act["eff"], role, act), act["tag"])
+                b.value.register_value_modifier(act["pipe"], OBJECTS[key])
+            else:
+                kind = act.get("source_kind", "probe")
+                if kind == "table":            # a lookup table as the source (constant data broadcast over the index)
+                    e = act["eff"].split(":")
+                    data = fl(e[1]) if e[0] == "gen" else [fl(e[1]) + j / 4 for j in range(int(e[4]))]
+                    src = b.lookup.build_table(data, value_columns=["value"] if e[0] == "gen" else [f"c{j}" for j in range(int(e[4]))])
+                elif kind == "pipeline":       # another pipeline as the source
+                    src = b.value.get_value(act["of"])
+                else:
+                    src = as_callable(act.get("callable", "function"), mk_probe(act["pipe"], act["tag"], act["eff"], "source", act), act["tag"])
+                post = act["post"]
+                if act.get("via") == "rate":
+                    h = b.value.register_rate_producer(act["pipe"], source=src)
+                else:
+                    pp = {"none": None, "rescale": rescale_post_processor, "union": union_post_processor}.get(post, 0)
+                    if pp == 0:
+                        pp = as_callable(act.get("post_callable", "function"), mk_probe(act["pipe"], "post", post[2:], "post", {}), "post")
+                    kw = {}
+                    if act["comb"] == "list" or not act.get("default_combiner"):
+                        kw["preferred_combiner"] = list_combiner if act["comb"] == "list" else replace_combiner
+                    if pp is not None or not act.get("default_post"):
+                        kw["preferred_post_processor"] = pp
+                    h = b.value.register_value_producer(act["pipe"], source=src, **kw)
+                HANDLES.setdefault(act["pipe"], h)
+            return "ok"
+        except Exception as e:  # noqa: BLE001
+            return "err:" + type(e).__name__
+
     class Reg(Component):
         def __init__(self, k, acts):
             super().__init__()
@@ -376,31 +443,11 @@ def _run(case):
 
         def setup(self, b):
             for act in self.acts:
-                rec = {"op": act["op"], "pipe": act["pipe"], "comp": self.name, "tag": act.get("tag", "src:" + self.name)}
-                try:
-                    if act["op"] == "mod":
-                        role = "list-mod" if act["eff"].split(":")[0] in ("gen", "fgen") else "replace-mod"
-                        b.value.register_value_modifier(act["pipe"], as_callable(act.get("callable", "function"), mk_probe(act["tag"], act["eff"], role), act["tag"]))
-                    else:
-                        src = as_callable(act.get("callable", "function"), mk_probe(act["tag"], act["eff"], "source"), act["tag"])
-                        post = act["post"]
-                        if act.get("via") == "rate":
-                            b.value.register_rate_producer(act["pipe"], source=src)
-                        else:
-                            pp = {"none": None, "rescale": rescale_post_processor, "union": union_post_processor}.get(post, 0)
-                            if pp == 0:
-                                pp = as_callable(act.get("post_callable", "function"), mk_probe("post", post[2:], "post"), "post")
-                            b.value.register_value_producer(
-                                act["pipe"], source=src,
-                                preferred_combiner=list_combiner if act["comb"] == "list" else replace_combiner,
-                                preferred_post_processor=pp)
-                    rec["outcome"] = "ok"
-                except Exception as e:  # noqa: BLE001
-                    rec["outcome"] = "err:" + type(e).__name__
-                REG.append(rec)
+                REG.append({"op": act["op"], "pipe": act["pipe"], "comp": self.name, "tag": act.get("tag", "src:" + self.name),
+                            "outcome": register(b, act, self.name)})
 
     class Driver(Component):
-        """obtains the pipelines, the clock's views of the step sizes, and calls pipelines inside listeners"""
+        """obtains the pipelines, the clock's views of the step sizes, and calls pipelines inside listeners / an initializer"""
 
         def __init__(self):
             super().__init__()
@@ -411,8 +458,10 @@ def _run(case):
             return "driver"
 
         def setup(self, b):
+            self.b = b
             self.get = b.value.get_value
             self.pipes = {c["pipe"]: b.value.get_value(c["pipe"]) for c in case["calls"]}
+            self.step_pipe = b.value.get_value(STEP_PIPE)
             self.tracked = b.population.get_view(["tracked"])
             self.gstep = b.time.step_size()
             self.sstep = b.time.simulant_step_sizes()
@@ -421,6 +470,19 @@ def _run(case):
                 unit = pd.Timedelta(case["min_step_ns"], unit="ns")
                 b.time.register_step_size_modifier(
                     lambda idx: pd.Series([unit * case["mults"][int(i)] for i in idx], index=idx))
+            if any(c["where"] == "initializer" for c in case["calls"]):
+                # an initializer that creates nothing and needs the clock's column: pipelines used during population creation
+                b.population.initializes_simulants(self.first_use, creates_columns=[], requires_columns=["step_size"])
+
+        def on_post_setup(self, e):
+            # registrations after setup must be refused (and change nothing)
+            for act in case.get("late_regs", []):
+                out["late"].append(register(self.b, act, self.name))
+
+        def first_use(self, pop_data):
+            for ci, c in enumerate(case["calls"]):
+                if c["where"] == "initializer":
+                    do_call(ci, c, created=pop_data.index)
 
         def on_time_step(self, e):
             self.nstep += 1
@@ -430,43 +492,76 @@ def _run(case):
                     self.tracked.update(pd.Series(False, index=pd.Index(np.array(sims, dtype="int64")), name="tracked"))
             for ci, c in enumerate(case["calls"]):
                 if c["where"] == "listener" and c["after"] == self.nstep:
-                    do_call(ci, c, e)
+                    do_call(ci, c, event=e)
 
     drv = Driver()
 
-    def do_call(ci, c, event=None):
-        pipe = drv.pipes[c["pipe"]]
-        a = fl(c["a"])
-        if c["idx"] == "event":                 # the index the framework hands to listeners (untracked simulants included)
-            index = event.index
-        elif c["idx"] == "all":
-            index = sim.get_population(untracked=True).index
-        elif c["idx"] is not None:
-            index = pd.Index(np.array(c["idx"], dtype="int64"))
-        args = [] if c["idx"] is None else [index]
-        kwargs = {}
-        if c["kw"]:
-            kwargs["a"] = a
-        else:
-            args.append(a)
-        if c["skip"]:
-            kwargs["skip_post_processor"] = True
+    def mk_index(c, labels):
+        kind = c.get("index_kind", "int64")
+        if kind == "range" and labels and labels == list(range(labels[0], labels[-1] + 1)):
+            return pd.RangeIndex(labels[0], labels[-1] + 1)
+        if kind == "named":
+            return pd.Index(np.array(labels, dtype="int64"), name="simulant_id")
+        return pd.Index(np.array(labels, dtype="int64"))
+
+    def observe_steps(rec):
         allidx = pd.Index(np.arange(case["pop"], dtype="int64"))
-        rec = {"call": ci, "idx": None if c["idx"] is None else [int(i) for i in index],
-               "gstep_ns": int(pd.Timedelta(drv.gstep()).value),
-               "sstep_ns": {int(i): int(pd.Timedelta(x).value) for i, x in drv.sstep(allidx).items()}}
+        rec["gstep_ns"] = int(pd.Timedelta(drv.gstep()).value)
+        rec["sstep_ns"] = {int(i): int(pd.Timedelta(x).value) for i, x in drv.sstep(allidx).items()}
         pop = sim._population.get_population(True)
         rec["untracked"] = [int(i) for i in pop.index[~pop["tracked"].astype(bool)]]
         rec["col_ns"] = ({int(i): int(pd.Timedelta(x).value) for i, x in pop["step_size"].items()}
                          if "step_size" in pop.columns and case["mults"] is not None else None)
+
+    def do_call(ci, c, event=None, created=None):
+        handle = c.get("handle", "get_value")
+        pipe = HANDLES[c["pipe"]] if handle == "producer" and c["pipe"] in HANDLES else drv.get(c["pipe"]) if handle == "late" else drv.pipes[c["pipe"]]
+        if created is not None:
+            index = created
+        elif c["idx"] == "event":                 # the index the framework hands to listeners (untracked simulants included)
+            index = event.index
+        elif c["idx"] == "all":
+            index = sim.get_population(untracked=True).index
+        elif c["idx"] is not None:
+            index = mk_index(c, c["idx"])
+        args = [] if c["idx"] is None else [index]
+        kwargs = {}
+        if not c.get("noarg"):
+            a = fl(c["a"])
+            if c["kw"]:
+                kwargs["a"] = a
+            else:
+                args.append(a)
+        if c.get("extra"):
+            if c["extra"][0] == "pos":
+                args.append(fl(c["extra"][1]))
+            else:
+                kwargs["b"] = fl(c["extra"][1])
+        if c["skip"]:
+            kwargs["skip_post_processor"] = True
+        rec = {"call": ci, "idx": None if c["idx"] is None else [int(i) for i in index]}
+        observe_steps(rec)
         TRACE.clear()
         try:
-            out = pipe(*args, **kwargs)
-            rec["outcome"], rec["value"] = "ok", canon(out)
+            res = pipe(*args, **kwargs)
+            rec["outcome"], rec["value"] = "ok", canon(res)
         except Exception as e:  # noqa: BLE001
             rec["outcome"], rec["value"] = "err:" + type(e).__name__, None
         rec["trace"] = list(TRACE)
         CALLS.append(rec)
+
+    def step_pipe_call(j, c):
+        rec = {"call": j}
+        try:
+            res = drv.step_pipe(pd.Index(np.array(c["idx"], dtype="int64")), **({"skip_post_processor": True} if c["skip"] else {}))
+            rec["outcome"] = "ok"
+            if isinstance(res, list):
+                rec["entries"] = len(res)
+            else:
+                rec["steps"] = [[int(i), None if pd.isna(x) else int(pd.Timedelta(x).value)] for i, x in res.items()]
+        except Exception as e:  # noqa: BLE001
+            rec["outcome"] = "err:" + type(e).__name__
+        out["stepsize"].append(rec)
 
     SimulationContext._clear_context_cache()
     comps = [Reg(k, acts) for k, acts in enumerate(case["comps"])]
@@ -476,17 +571,19 @@ def _run(case):
     cfg = {"population": {"population_size": case["pop"]},
            "time": {"start": {"year": 2020, "month": 1, "day": 1}, "end": {"year": 2120, "month": 1, "day": 1},
                     "step_size": float(d)}}
-    out = {"error": None}
     try:
         sim = SimulationContext(components=comps, configuration=cfg, logging_verbosity=0)
         sim.setup()
         sim.initialize_simulants()
         out["min_step_ns"] = int(sim._clock.minimum_step_size.value)
-        nsteps = max([c["after"] for c in case["calls"]] + [0])
+        nsteps = max([c["after"] for c in case["calls"]] + [c["after"] for c in case.get("stepsize_calls", [])] + [0])
         for k in range(nsteps + 1):
             for ci, c in enumerate(case["calls"]):
                 if c["where"] == "outside" and c["after"] == k:
                     do_call(ci, c)
+            for j, c in enumerate(case.get("stepsize_calls", [])):
+                if c["after"] == k:
+                    step_pipe_call(j, c)
             if k < nsteps:
                 sim.step()
     except Exception as e:  # noqa: BLE001
@@ -533,7 +630,12 @@ class C14(Prop):
             g = {"series": "gen", "frame": "fgen", "array": "agen"}[shape]
             src = {"op": "src", "pipe": name, "comb": "replace", "post": post,
                    "eff": f"{g}:{q(0, 3, 4)}:{q(0, 1, 4)}:{q(0, 1, 2)}" + (f":{ncol}" if shape == "frame" else ""),
-                   "via": "rate" if kind == "rate" and rng.random() < 0.6 else "value"}
+                   "via": "rate" if kind == "rate" and rng.random() < 0.6 else "value",
+                   "dtype": rng.choice(["float", "float", "float", "int"]), "scalar_kind": rng.choice(["float", "float", "np", "0d"]),
+                   "default_combiner": rng.random() < 0.4, "default_post": rng.random() < 0.4}
+            if shape != "array" and rng.random() < 0.14:
+                # the source is a lookup table (scalar data broadcast over the index): constant, called with the index only
+                src.update(source_kind="table", eff=f"{g}:{q(0, 3, 4)}:0:0" + (f":{ncol}" if shape == "frame" else ""))
             nsq = 0
             for _ in range(nm):
                 if rng.random() < 0.3 and nsq < 2:
@@ -545,7 +647,8 @@ class C14(Prop):
                 acts.append({"op": "mod", "pipe": name, "eff": eff})
         elif kind == "marks":
             post = rng.choice(["none", "none", "c:app:99", "c:app:99", "rescale"])     # rescale of a Python list: the code raises
-            src = {"op": "src", "pipe": name, "comb": "replace", "post": post, "eff": "mark:0", "via": "value"}
+            src = {"op": "src", "pipe": name, "comb": "replace", "post": post, "eff": rng.choice(["mark:0", "mark:0", "tmark:0"]), "via": "value",
+                   "default_combiner": rng.random() < 0.4, "default_post": rng.random() < 0.4}
             for _ in range(nm):
                 acts.append({"op": "mod", "pipe": name, "eff": "app:1"})     # marker filled in below
         else:
@@ -568,13 +671,17 @@ class C14(Prop):
             a["tag"] = f"m{ids[0]}"
             if a["eff"].startswith("app:"):
                 a["eff"] = f"app:{ids[0]}"
+        if acts and rng.random() < 0.12:
+            # the very same callable object registered a second time for the same pipeline: it runs twice
+            k = rng.randrange(len(acts))
+            acts.insert(rng.randint(k + 1, len(acts)), dict(acts[k], same_object=True))
         src["tag"] = "src"
         r = rng.random()
         sources = [src] if r < 0.8 else []
         if r >= 0.9:
             # a second source with a different effect and post-processor (must be rejected, the first one stays)
             alt = {"num": "gen:5:0:0", "rate": "gen:5:0:0", "marks": "mark:7", "list": "lgen:1/2:0:0"}[kind]
-            sources = [src, dict(src, eff=alt, tag="src2", post="none", via="value")]
+            sources = [src, dict(src, eff=alt, tag="src2", post="none", via="value", source_kind="probe")]
         return kind + ("" if shape == "series" else ":" + shape), sources, acts
 
     def generate(self, rng: random.Random, i: int, tier: str):
@@ -595,6 +702,12 @@ class C14(Prop):
             name = f"p{pn}"
             kind, sources, acts = self._pipeline(rng, name, exact, ids)
             pipes[name] = kind
+            numeric = [q for q, kq in pipes.items() if q != name and kq.split(":")[0] in ("num", "rate")]
+            if sources and numeric and kind.split(":")[0] in ("num", "rate") and rng.random() < 0.35:
+                # the source is ANOTHER PIPELINE (registered earlier or later; obtained with get_value): its value, post-processed,
+                # is what this pipeline's modifiers work on
+                sources[0].update(source_kind="pipeline", of=rng.choice(numeric))
+                sources[0].pop("dtype", None)
             # interleave: keep the relative order of this pipeline's modifiers, put the sources anywhere
             seq = list(acts)
             for s in sources:
@@ -625,24 +738,68 @@ class C14(Prop):
             else:
                 idx = rng.sample(range(pop), rng.randint(1, pop))
             a = fs(F(rng.randint(0, 4), 4)) if exact else fs(F(round(rng.uniform(0, 2), 3)))
-            calls.append({"pipe": pn, "idx": idx, "a": a, "kw": rng.random() < 0.4, "skip": rng.random() < 0.3,
-                          "after": rng.choice([0, 0, 1, 1, 2, 3]), "where": rng.choice(["outside", "outside", "listener"])})
+            if idx and rng.random() < 0.15:
+                idx = idx + [rng.choice(idx) for _ in range(rng.randint(1, 2))]          # repeated labels
+            call = {"pipe": pn, "idx": idx, "a": a, "kw": rng.random() < 0.4, "skip": rng.random() < 0.3,
+                    "after": rng.choice([0, 0, 1, 1, 2, 3]), "where": rng.choice(["outside", "outside", "outside", "listener", "listener", "initializer"]),
+                    "handle": rng.choice(["get_value", "get_value", "producer", "producer", "late"]),
+                    "index_kind": rng.choice(["int64", "int64", "range", "named"]), "extra": None}
+            if rng.random() < 0.25:
+                call["extra"] = [rng.choice(["pos", "kw"]), fs(F(rng.randint(1, 9), 2))]
+                if call["extra"][0] == "pos":
+                    call["kw"] = False          # a positional argument cannot follow a keyword one
+            calls.append(call)
+        srcs = {a["pipe"]: a for seq in allacts for a in seq if a["op"] == "src" and a["tag"] == "src"}
+
+        def table_inside(name, depth=0):
+            a = srcs.get(name)
+            if a is None or depth > 4:
+                return False
+            return a.get("source_kind") == "table" or (a.get("source_kind") == "pipeline" and table_inside(a["of"], depth + 1))
+        def scalar_ok(name, depth=0):
+            """can the pipeline be called without an index (every callable down the chain produces a plain number then)?"""
+            a = srcs.get(name)
+            if a is None:
+                return True
+            if a.get("source_kind") == "pipeline":
+                return depth < 4 and scalar_ok(a["of"], depth + 1) and pipes.get(a["of"], "num") in ("num", "rate")
+            return a["eff"].split(":")[0] == "gen" and a.get("source_kind", "probe") == "probe"
         for c in calls:
+            if c["idx"] is None and not scalar_ok(c["pipe"]):
+                c["idx"] = rng.sample(range(pop), rng.randint(1, pop))
             if c["where"] == "listener" and c["after"] == 0:
                 c["after"] = 1
+            if c["where"] == "initializer":     # first use of the pipeline: inside an initializer while the population is created
+                c.update(after=0, idx="created" if c["idx"] is not None else None)
+            if table_inside(c["pipe"]):         # a lookup table takes the index and nothing else
+                c.update(noarg=True, kw=False, extra=None)
+                if c["idx"] is None:
+                    c["idx"] = list(range(pop))
         # simulants that leave the simulation (tracked = False) while it runs; later requests still name them
         untrack = []
         if rng.random() < 0.4:
             at = rng.choice([1, 1, 2])
             untrack = [[at, sorted(rng.sample(range(pop), rng.randint(1, pop)))]]
             for c in calls:
-                if rng.random() < 0.7:
+                if rng.random() < 0.7 and c["where"] != "initializer":
                     c["after"] = max(c["after"], at if c["where"] == "listener" else at + rng.choice([0, 0, 1]))
         for c in calls:
-            if c["idx"] is not None and rng.random() < 0.25:
+            if c["idx"] is not None and c["where"] != "initializer" and rng.random() < 0.25:
                 c["idx"] = "event" if c["where"] == "listener" and rng.random() < 0.6 else "all"
+        # registrations attempted from a post_setup listener (must be refused), the clock's own pipeline, a second source for it
+        late = []
+        if rng.random() < 0.15:
+            for _ in range(rng.randint(1, 2)):
+                pn = rng.choice(list(pipes))
+                late.append({"op": "mod", "pipe": pn, "eff": "app:77" if pipes[pn] == "marks" else "aff:3:1:0:0", "tag": "late"} if rng.random() < 0.6 else
+                            {"op": "src", "pipe": pn + "_late", "comb": "replace", "post": "none", "eff": "gen:9:0:0", "via": "value", "tag": "late"})
+        stepcalls = [{"after": rng.choice([0, 1, 2]), "idx": rng.sample(range(pop), rng.randint(1, pop)), "skip": rng.random() < 0.3}
+                     for _ in range(rng.randint(1, 2))] if rng.random() < 0.2 else []
+        if rng.random() < 0.08:
+            comps[rng.randrange(len(comps))].append({"op": "src", "pipe": STEP_PIPE, "comb": "list", "post": "none", "eff": "lgen:0:0:0", "via": "value", "tag": "src2"})
         case = {"stream": "exact" if exact else "general", "pop": pop, "min_step_ns": min_ns, "mults": mults,
-                "comps": comps, "calls": calls, "driver_pos": rng.randint(0, 4), "untrack": untrack}
+                "comps": comps, "calls": calls, "driver_pos": rng.randint(0, 4), "untrack": untrack,
+                "late_regs": late, "stepsize_calls": stepcalls, "prior": rng.random() < 0.1}
         if exact:
             case = self._make_exact(case)
         return case
@@ -665,6 +822,14 @@ class C14(Prop):
                         if act["eff"].startswith("aff:") and act["eff"].split(":")[1] not in ("1", "-1"):
                             act["eff"] = "aff:1:" + ":".join(act["eff"].split(":")[2:])
                             break
+            first = {}
+            for comp in case["comps"]:          # one callable object registered twice has one effect
+                for act in comp:
+                    if act["op"] == "mod":
+                        k = (act["pipe"], act["tag"])
+                        if act.get("same_object") and k in first:
+                            act["eff"] = first[k]["eff"]
+                        first.setdefault(k, act)
         return dict(case, stream="general")      # could not be made exact: compare with the tolerance instead
 
     def _inexact_pipes(self, case):
@@ -674,7 +839,7 @@ class C14(Prop):
             if isinstance(c["idx"], str):
                 c = dict(c, idx=list(range(case["pop"])))
             try:
-                self._expected(case, self._registered(regs, assume=True), c, None, check=True)
+                self._expected(case, self._registered(regs, assume=True), c, self._steps_cfg(case, c), check=True)
             except _Inexact:
                 bad.add(c["pipe"])
         return bad
@@ -722,6 +887,30 @@ class C14(Prop):
                               + [dict(s(f"q{k}", "replace", "c:aff:2:1:0:0", "gen:1/2:1/4:0"), callable=kind, post_callable=kind) for k, kind in enumerate(kinds)]
                               + [dict(m(f"q{k}", "aff:2:1:0:0", f"m{10 + k}"), callable=kinds[-1 - k]) for k in range(6)]],
                     "calls": [c("p0", [1, 0])] + [c(f"q{k}", [0, 1]) for k in range(6)]})
+        # LESSONS audit: every kind of handle (returned by register_value_producer / register_rate_producer, get_value before the
+        # source exists, get_value at call time), extra positional / keyword arguments, a lookup table and another pipeline (sourced
+        # LATER, by another component) as sources, the same callable registered twice, integer dtype / numpy scalar / 0-d values,
+        # RangeIndex / named index / repeated labels, first use inside an initializer, registrations from post_setup (refused),
+        # the clock's own pipeline and a second source for it, an earlier simulation in the process
+        cx = lambda pipe, idx, **kw: {**c(pipe, idx), "handle": "get_value", "index_kind": "int64", "extra": None, **kw}     # noqa: E731
+        out.append({"stream": "exact", "pop": 4, "min_step_ns": year8, "mults": [2, 3, 2, 4], "driver_pos": 0, "untrack": [[2, [1]]], "prior": True,
+                    "late_regs": [{"op": "mod", "pipe": "p0", "eff": "aff:3:1:0:0", "tag": "late"}, {"op": "src", "pipe": "p9", "comb": "replace", "post": "none", "eff": "gen:9:0:0", "via": "value", "tag": "late"}],
+                    "stepsize_calls": [{"after": 0, "idx": [3, 0, 1], "skip": False}, {"after": 2, "idx": [1, 2], "skip": True}, {"after": 2, "idx": [1], "skip": False}],
+                    "comps": [[dict(s("p1", "replace", "c:aff:2:1:0:0", "gen:0:0:0"), source_kind="pipeline", of="p0", default_combiner=True), m("p1", "aff:2:0:1/4:0", "m1"),
+                               dict(m("p1", "aff:2:0:1/4:0", "m1"), same_object=True),
+                               dict(s("p2", "replace", "rescale", "gen:3/4:0:0", via="rate"), source_kind="table"), m("p2", "aff:2:1:0:0", "m2"),
+                               dict(s("p3", "replace", "rescale", "fgen:1/2:0:0:2"), source_kind="table"),
+                               dict(s("p4", "replace", "none", "gen:0:0:0"), source_kind="pipeline", of="p2", default_combiner=True, default_post=True), m("p4", "sq", "m3")],
+                              [dict(s("p0", "replace", "rescale", "gen:2:1:1", via="rate"), dtype="int", scalar_kind="0d", callable="object"), m("p0", "aff:2:0:0:1", "m0"),
+                               dict(s("p5", "replace", "none", "gen:1:0:1"), dtype="int", scalar_kind="np"),
+                               {"op": "src", "pipe": STEP_PIPE, "comb": "list", "post": "none", "eff": "lgen:0:0:0", "via": "value", "tag": "src2"},
+                               dict(s("p6", "replace", "none", "gen:0:0:0"), source_kind="pipeline", of="nowhere")]],
+                    "calls": [cx("p1", [3, 0, 2, 1], extra=["pos", "5/2"]), cx("p1", [2, 2, 0], after=1, kw=True, extra=["kw", "7/2"], handle="producer", where="listener"),
+                              cx("p1", "created", after=0, where="initializer", handle="late"), cx("p0", [0, 1, 2, 3], handle="producer", index_kind="range", after=2),
+                              cx("p0", None, handle="producer", kw=True), cx("p5", None, handle="late", extra=["kw", "1/2"]), cx("p5", None, skip=True),
+                              cx("p2", [3, 1], noarg=True, handle="producer", after=1), cx("p2", "created", noarg=True, where="initializer"),
+                              cx("p3", [1, 3, 0], noarg=True, index_kind="named", after=2), cx("p4", [2, 3, 3], noarg=True, after=1, where="listener"),
+                              cx("p6", [0]), cx("p0", "all", after=2, handle="late", extra=["pos", "1/2"])]})
         # union of DataFrames
         out.append({"stream": "exact", "pop": 3, "min_step_ns": year8, "mults": None, "driver_pos": 0,
                     "comps": [[s("p0", "list", "union", "lfgen:1/8:1/16:0:2"), m("p0", "fgen:1/4:0:0:2", "m1"), m("p0", "fgen:0:1/16:0:2", "m2")]],
@@ -787,26 +976,50 @@ class C14(Prop):
     def _acts_by_tag(self, case):
         return {(a["pipe"], a["tag"]): a for comp in case["comps"] for a in comp}
 
-    def _expected(self, case, pipes, c, steps, check=False):
-        """expected (value, trace tags, pre-post value) of call `c` over exact rationals; None if rejected"""
+    @staticmethod
+    def _steps_cfg(case, c):
+        """the global step and every simulant's own step at call `c`, from the CONFIGURATION alone (minimum step, step
+        modifiers): {"g": ns, "s": {simulant: ns}}. Per-simulant clocks: a simulant whose next event time has come is
+        given its modifier's step; the global step is the time to the earliest next event."""
+        unit, pop = case["min_step_ns"], case["pop"]
+        if case["mults"] is None or c["where"] == "initializer":
+            return {"g": unit, "s": {i: unit for i in range(pop)}}
+        m = case["mults"]
+        clock, nxt = 0, list(m)                  # after initialize_simulants: everybody was due and got its own step
+        g = min(nxt) - clock
+        for _ in range(c["after"] - 1 if c["where"] == "listener" else c["after"]):
+            clock += g
+            nxt = [clock + m[i] if nxt[i] <= clock else nxt[i] for i in range(pop)]
+            g = min(nxt) - clock
+        return {"g": g * unit, "s": {i: m[i] * unit for i in range(pop)}}
+
+    def _expected(self, case, pipes, c, steps, check=False, depth=0):
+        """expected (value, trace as [pipe, tag] pairs, pre-post value) of call `c` over exact rationals; None if rejected"""
         p = pipes.get(c["pipe"])
-        if p is None or p["src"] is None:
+        if p is None or p["src"] is None or depth > 4:
             return None
         acts = self._acts_by_tag(case)
         src = acts[(c["pipe"], p["src"]["tag"])]
-        idx, a = c["idx"], F(c["a"])
+        idx, a = c["idx"], (F(0) if c.get("noarg") else F(c["a"]))
 
         def chk(eff, prev):
             if check:
                 for x in intermediates(eff, idx, a, prev):
                     if not is_exact(x):
                         raise _Inexact()
-        chk(src["eff"], None)
-        v = ref_eff(src["eff"], idx, a, None)
-        tags = [src["tag"]]
+        kind = src.get("source_kind", "probe")
+        if kind == "pipeline":         # the source is another pipeline: it is called with the same arguments, post-processed
+            inner = self._expected(case, pipes, dict(c, pipe=src["of"], skip=False), steps, check, depth + 1)
+            if inner is None:
+                return None
+            v, tags = inner[0], list(inner[1])
+        else:
+            chk(src["eff"], None)
+            v = ref_eff(src["eff"], idx, a, None)
+            tags = [[c["pipe"], src["tag"]]] if kind == "probe" else []     # a lookup table is not a probe: it logs nothing
         for mreg in p["mods"]:
             eff = acts[(c["pipe"], mreg["tag"])]["eff"]
-            tags.append(mreg["tag"])
+            tags.append([c["pipe"], mreg["tag"]])
             if src["comb"] == "list":
                 chk(eff, None)
                 v = ("l", v[1] + [ref_eff(eff, idx, a, None)])
@@ -822,50 +1035,60 @@ class C14(Prop):
                         if not is_exact(x):
                             raise _Inexact()
                 v = ref_eff(post[2:], None, F(0), v)
-                tags.append("post")
+                tags.append([c["pipe"], "post"])
             elif post == "union":
                 v = ref_union(v[1])
-                if check:
-                    for _, x in cells(v):
-                        if not is_exact(x):
-                            raise _Inexact()
             elif post == "rescale":
                 if v[0] == "l":
-                    return None         # a Python list reaches `value.mul`: the call raises
-                if steps is None:       # exactness check at generation time: any step i/16 year, i <= 16·3
-                    if check:
-                        for _, x in cells(v):
-                            if not is_exact(x * F(48, 16)) or not is_exact(x / 16):
-                                raise _Inexact()
-                else:
-                    v = ref_rescale(v, steps)
+                    return None         # a Python list / tuple reaches `value.mul`: the call raises
+                v = ref_rescale(v, steps)
+            if check:
+                for _, x in cells(v):
+                    if not is_exact(x):
+                        raise _Inexact()
         return v, tags, pre
 
     # ------------------------------------------------------------------ model
     def model_lines(self, case, obs):
         if obs["error"]:
             return []
-        L = []
+        # the clock registers the source of its step-size pipeline before any component is set up
+        L = [f"src {STEP_PIPE} clock list none lgen:0:0:0"]
         acts = self._acts_by_tag(case)
         for r in obs["reg"]:
             a = acts[(r["pipe"], r["tag"])]
             if r["op"] == "mod":
                 L.append(f"mod {r['pipe']} {r['comp']} {r['tag']} {a['eff']}")
             else:
-                L.append(f"src {r['pipe']} {r['comp']} {a['comb']} {a['post']} {a['eff']}")
+                eff = "pipe:" + a["of"] if a.get("source_kind") == "pipeline" else a["eff"].replace("tmark:", "mark:")     # a tuple is a list to the model
+                L.append(f"src {r['pipe']} {r['comp']} {a['comb']} {a['post']} {eff}")
         for rec in obs["calls"]:
             c = self._call(case, rec)
-            own = rec["col_ns"] if rec["col_ns"] is not None else rec["sstep_ns"]
-            sims = ",".join(f"{i}={ns}" for i, ns in sorted(own.items())) or "-"
-            L.append(f"clock {rec['gstep_ns']} {sims}")
+            st = self._steps_cfg(case, c)          # from the configuration, not from the implementation
+            sims = ",".join(f"{i}={ns}" for i, ns in sorted(st["s"].items())) or "-"
+            L.append(f"clock {st['g']} {sims}")
             idx = "none" if c["idx"] is None else (",".join(map(str, c["idx"])) or "-")
-            L.append(f"call {c['pipe']} {idx} {c['a']} {1 if c['skip'] else 0}")
+            L.append(f"call {c['pipe']} {idx} {'0' if c.get('noarg') else c['a']} {1 if c['skip'] else 0}")
         return L
+
+    def _innermost_table(self, case, pipes, name, depth=0):
+        """does evaluating pipeline `name` start with a lookup table (which logs nothing in the implementation)?"""
+        p = pipes.get(name)
+        if p is None or p["src"] is None or depth > 4:
+            return False
+        src = self._acts_by_tag(case)[(name, p["src"]["tag"])]
+        if src.get("source_kind") == "pipeline":
+            return self._innermost_table(case, pipes, src["of"], depth + 1)
+        return src.get("source_kind") == "table"
 
     def compare(self, case, obs, replies):
         dis = []
         exact = case["stream"] == "exact"
+        if replies[0] != "ok":
+            dis.append(f"model refused the clock's own source: {replies[0]}")
+        replies = replies[1:]
         n = len(obs["reg"])
+        pipes = self._registered(obs["reg"])
         for r, rep in zip(obs["reg"], replies[:n]):
             if (r["outcome"] == "ok") != (rep == "ok") or (r["outcome"] != "ok" and rep != "err dup"):
                 dis.append(f"registration {r['op']} {r['pipe']} by {r['comp']}: impl {r['outcome']}, model {rep}")
@@ -878,7 +1101,7 @@ class C14(Prop):
                 if rec["outcome"] == "ok":
                     dis.append(f"call {c}: impl ok, model {rep}")
                 elif rep.startswith("err raised:"):
-                    itrace = ["src" if t["tag"].startswith("src") else t["tag"] for t in rec["trace"]]
+                    itrace = (["src"] if self._innermost_table(case, pipes, c["pipe"]) else []) + ["src" if t["tag"].startswith("src") else t["tag"] for t in rec["trace"]]
                     mtrace = rep.split(" ")[2]
                     if rec["outcome"] != "err:" + rep.split(" ")[1][7:] or itrace != ([] if mtrace == "-" else mtrace.split(",")):
                         dis.append(f"call {c}: impl {rec['outcome']} after {itrace}, model {rep}")
@@ -888,7 +1111,7 @@ class C14(Prop):
                 continue
             _, mval, mtrace = rep.split(" ")
             # the model logs the source as "src": map the implementation's source tag
-            itrace = ["src" if t["tag"].startswith("src") else t["tag"] for t in rec["trace"]]
+            itrace = (["src"] if self._innermost_table(case, pipes, c["pipe"]) else []) + ["src" if t["tag"].startswith("src") else t["tag"] for t in rec["trace"]]
             if itrace != ([] if mtrace == "-" else mtrace.split(",")):
                 dis.append(f"call {c}: trace impl {itrace}, model {mtrace}")
             if not val_eq(parse_val(rec["value"]), parse_val(mval), exact):
@@ -896,6 +1119,14 @@ class C14(Prop):
         return dis
 
     # ------------------------------------------------------------------ oracle: the property on the observed behaviour
+    def _sourced(self, case, pipes, name, depth=0):
+        """has pipeline `name` a source all the way down (a pipeline used as a source needs one too)?"""
+        p = pipes.get(name)
+        if p is None or p["src"] is None or depth > 4:
+            return False
+        src = self._acts_by_tag(case)[(name, p["src"]["tag"])]
+        return self._sourced(case, pipes, src["of"], depth + 1) if src.get("source_kind") == "pipeline" else True
+
     def oracle(self, case, obs):
         f = []
         if obs["error"]:
@@ -905,10 +1136,10 @@ class C14(Prop):
         if len(obs["reg"]) != sum(len(c) for c in case["comps"]):
             f.append({"sig": "registration-missing", "msg": f"{len(obs['reg'])} registrations observed"})
         # registration outcomes: modifiers always accepted; first source accepted, later ones rejected
-        seen_src = set()
+        seen_src = {STEP_PIPE}           # the clock has registered the source of its own pipeline before any component
         for r in obs["reg"]:
             if r["op"] == "mod" and r["outcome"] != "ok":
-                f.append({"sig": "modifier-rejected", "msg": f"{r}"})
+                f.append({"sig": "modifier-rejected", "msg": f"{r} ({acts[(r['pipe'], r['tag'])].get('callable', 'function')})"})
             if r["op"] == "src":
                 if r["pipe"] in seen_src and r["outcome"] == "ok":
                     f.append({"sig": "second-source-accepted", "msg": f"{r}"})
@@ -917,8 +1148,17 @@ class C14(Prop):
                 if r["pipe"] in seen_src and r["outcome"] not in ("ok", "err:DynamicValueError"):
                     f.append({"sig": "second-source-wrong-error", "msg": f"{r}"})
                 seen_src.add(r["pipe"])
+        # registrations attempted after setup (from a post_setup listener) are refused
+        late = obs.get("late", [])
+        if len(late) != len(case.get("late_regs", [])):
+            f.append({"sig": "late-registration-missing", "msg": f"{late}"})
+        for act, got in zip(case.get("late_regs", []), late):
+            if got == "ok":
+                f.append({"sig": "late-registration-accepted", "msg": f"{act['op']} for {act['pipe']} registered during post_setup was accepted"})
+        if obs["min_step_ns"] != case["min_step_ns"]:
+            f.append({"sig": "clock-min-step", "msg": f"configured {case['min_step_ns']} ns, clock says {obs['min_step_ns']}"})
         # what the property says is registered: the FIRST source offered, every modifier in call order
-        pipes = self._registered([dict(r, outcome="ok") if r["op"] == "mod" else r for r in obs["reg"]])
+        pipes = self._registered([dict(r, outcome="ok") if r["op"] == "mod" else r for r in obs["reg"] if r["pipe"] != STEP_PIPE])
         for p in pipes.values():
             p["src"] = p["src_attempts"][0] if p["src_attempts"] else None
         if len(obs["calls"]) != len(case["calls"]):
@@ -926,20 +1166,19 @@ class C14(Prop):
         for rec in obs["calls"]:
             c = self._call(case, rec)
             set_scale(rec)
-            where = f"call {c['pipe']}({c['idx']}{'' if c['spec'] == 'labels' else ' = ' + c['spec']}, a={c['a']}, skip={c['skip']}) after {c['after']} steps ({c['where']})"
-            # each simulant's own step: the state table column, equal to what its step modifier asked for
-            if case["mults"] is not None:
-                want = {i: case["mults"][i] * obs["min_step_ns"] for i in range(case["pop"])}
-                if rec["col_ns"] != want:
-                    f.append({"sig": "simulant-step", "msg": f"{where}: step column {rec['col_ns']}, modifier asked {want}"})
-                    continue
-                if rec["sstep_ns"] != want:     # every simulant of the population has a step of its own, tracked or not
-                    f.append({"sig": "simulant-step-sizes", "msg": f"{where}: simulant_step_sizes(whole population) = {rec['sstep_ns']}, step column {want} (untracked: {rec['untracked']})"})
-            elif any(v != rec["gstep_ns"] for v in rec["sstep_ns"].values()):
-                f.append({"sig": "simulant-step", "msg": f"{where}: no per-simulant clocks but steps {rec['sstep_ns']} vs global {rec['gstep_ns']}"})
-            steps = {"g": rec["gstep_ns"], "s": rec["col_ns"] if rec["col_ns"] is not None else rec["sstep_ns"]}
-            p = pipes.get(c["pipe"])
-            if p is None or p["src"] is None:
+            where = (f"call {c['pipe']}({c['idx']}{'' if c['spec'] == 'labels' else ' = ' + c['spec']}, a={None if c.get('noarg') else c['a']}, extra={c.get('extra')}, "
+                     f"skip={c['skip']}) via {c.get('handle', 'get_value')} after {c['after']} steps ({c['where']})")
+            # the clock at this moment, from the configuration: global step, every simulant's own step (tracked or not)
+            steps = self._steps_cfg(case, c)
+            if rec["gstep_ns"] != steps["g"]:
+                f.append({"sig": "global-step", "msg": f"{where}: global step {rec['gstep_ns']}, configuration gives {steps['g']}"})
+                continue
+            if case["mults"] is not None and rec["col_ns"] != steps["s"]:
+                f.append({"sig": "simulant-step", "msg": f"{where}: step column {rec['col_ns']}, configuration gives {steps['s']}"})
+                continue
+            if rec["sstep_ns"] != steps["s"]:     # every simulant of the population has a step of its own, tracked or not
+                f.append({"sig": "simulant-step-sizes", "msg": f"{where}: simulant_step_sizes(whole population) = {rec['sstep_ns']}, expected {steps['s']} (untracked: {rec['untracked']})"})
+            if not self._sourced(case, pipes, c["pipe"]):
                 if rec["outcome"] == "ok":
                     f.append({"sig": "no-source-accepted", "msg": f"{where}: returned {rec['value']}"})
                 elif rec["outcome"] != "err:DynamicValueError":
@@ -947,44 +1186,50 @@ class C14(Prop):
                 if rec["trace"]:
                     f.append({"sig": "no-source-ran-callables", "msg": f"{where}: {[t['tag'] for t in rec['trace']]}"})
                 continue
+            p = pipes[c["pipe"]]
             src = acts[(c["pipe"], p["src"]["tag"])]
             post = src["post"]
-            if post == "rescale" and not c["skip"] and src["eff"].startswith("mark"):
-                continue    # a Python list as a rate: the code raises AttributeError (`list.index` exists, `list.mul` does not); not in the property
+            exp = self._expected(case, pipes, c, steps)
+            if exp is None:
+                continue    # a Python list / tuple as a rate: the code raises AttributeError (`list.index` exists, `list.mul` does not); not in the property
             if rec["outcome"] != "ok":
                 f.append({"sig": "call-raised", "msg": f"{where}: {rec['outcome']}"})
                 continue
-            want_tags = [p["src"]["tag"]] + [m["tag"] for m in p["mods"]] + (["post"] if post.startswith("c:") and not c["skip"] else [])
-            tags = [t["tag"] for t in rec["trace"]]
+            want_tags = exp[1]
+            tags = [[t["pipe"], t["tag"]] for t in rec["trace"]]
             if tags != want_tags:
                 sig = "trace-count" if sorted(tags) != sorted(want_tags) else "trace-order"
                 f.append({"sig": sig, "msg": f"{where}: callables ran {tags}, registered {want_tags}"})
                 continue
-            # the caller's arguments reach every callable
+            # the caller's arguments reach every callable (of this pipeline and of a pipeline used as its source)
+            want_a = None if c.get("noarg") else F(c["a"])
+            want_extra = {"pos": [F(c["extra"][1])] if c.get("extra") and c["extra"][0] == "pos" else [],
+                          "kw": {"b": F(c["extra"][1])} if c.get("extra") and c["extra"][0] == "kw" else {}}
             for t in rec["trace"]:
                 if t["tag"] == "post":
                     continue
-                if t["idx"] != c["idx"] or F(t["a"]) != F(c["a"]) or t["extra"]:
-                    f.append({"sig": "arguments", "msg": f"{where}: {t['tag']} received idx={t['idx']} a={t['a']} extra={t['extra']}"})
-            body = [t for t in rec["trace"] if t["tag"] != "post"]
+                got_extra = {"pos": [F(x) for x in t["extra"]["pos"]], "kw": {k: F(v) for k, v in t["extra"]["kw"].items()}}
+                if t["idx"] != c["idx"] or (None if t["a"] is None else F(t["a"])) != want_a or got_extra != want_extra:
+                    f.append({"sig": "arguments", "msg": f"{where}: {t['pipe']}/{t['tag']} received idx={t['idx']} a={t['a']} extra={t['extra']}"})
+            own = [t for t in rec["trace"] if t["pipe"] == c["pipe"] and t["tag"] != "post"]
             # combiner: replace -> each modifier receives the previous stage's output; list -> one entry each
+            pre_v = None
             if src["comb"] == "replace":
-                for prev, cur in zip(body, body[1:]):
+                for prev, cur in zip(own, own[1:]):
                     if cur["prev"] != prev["out"]:
                         f.append({"sig": "chain", "msg": f"{where}: {cur['tag']} received {cur['prev']}, previous stage {prev['tag']} returned {prev['out']}"})
-                pre = body[-1]["out"]
+                if own:
+                    pre_v = parse_val(own[-1]["out"])
             else:
-                if any(t["prev"] is not None for t in body[1:]):
+                if any(t["prev"] is not None for t in own[1:]):
                     f.append({"sig": "chain", "msg": f"{where}: a list modifier received a previous value"})
-                src_items = parse_val(body[0]["out"])[1]
-                pre_v = ("l", list(src_items) + [parse_val(t["out"]) for t in body[1:]])
-                pre = None
+                pre_v = ("l", list(parse_val(own[0]["out"])[1]) + [parse_val(t["out"]) for t in own[1:]])
             got = parse_val(rec["value"])
             # post-processing
             applied = post != "none" and not c["skip"]
-            if src["comb"] == "replace":
-                pre_v = parse_val(pre)
-            if not applied:
+            if pre_v is None:
+                pass            # neither the source nor a modifier of this pipeline is a probe: only the recomputed value is checked
+            elif not applied:
                 if not val_eq(got, pre_v, True):
                     f.append({"sig": "post-skipped-value" if c["skip"] else "value", "msg": f"{where}: returned {rec['value']}, last stage produced {pre_v}"})
             elif post.startswith("c:"):
@@ -1006,9 +1251,23 @@ class C14(Prop):
                 if all(0 <= x <= 1 for x in flat) and any(not (-TOL <= y <= 1 + TOL) for y in res):
                     f.append({"sig": "union-range", "msg": f"{where}: {rec['value']} leaves [0, 1]"})
             # the whole value, recomputed from the registered effects: m_n(args, ... m_1(args, src(args)))
-            exp = self._expected(case, pipes, c, steps)
-            if exp is not None and not val_eq(got, exp[0], exact):
+            if not val_eq(got, exp[0], exact):
                 f.append({"sig": "value", "msg": f"{where}: returned {rec['value']}, expected {exp[0]}"})
+        # the clock's own pipeline (list combiner, the clock's post-processor): every requested simulant's step, from the configuration
+        if len(obs.get("stepsize", [])) != len(case.get("stepsize_calls", [])):
+            f.append({"sig": "call-missing", "msg": f"step-size pipeline: {len(obs.get('stepsize', []))} calls"})
+        for rec in obs.get("stepsize", []):
+            c = case["stepsize_calls"][rec["call"]]
+            where = f"{STEP_PIPE}({c['idx']}, skip={c['skip']}) after {c['after']} steps"
+            if rec["outcome"] != "ok":
+                f.append({"sig": "step-pipeline-raised", "msg": f"{where}: {rec['outcome']}"})
+            elif c["skip"]:
+                if rec.get("entries") != 1 + (case["mults"] is not None):
+                    f.append({"sig": "step-pipeline-value", "msg": f"{where}: {rec.get('entries')} list entries (source + {int(case['mults'] is not None)} modifier)"})
+            else:
+                want = [[i, (case["mults"][i] if case["mults"] is not None else 1) * case["min_step_ns"]] for i in c["idx"]]
+                if rec.get("steps") != want:
+                    f.append({"sig": "step-pipeline-value", "msg": f"{where}: {rec.get('steps')}, configuration gives {want}"})
         return f
 
     # ------------------------------------------------------------------ reporting
@@ -1020,6 +1279,11 @@ class C14(Prop):
                                                        "per-simulant-distinct" if len(set(case["mults"])) > 1 else "per-simulant-equal")]
         if obs["error"]:
             return t + ["simulation-error"]
+        t += ["late-registration:" + ("refused" if r != "ok" else "accepted") for r in obs.get("late", [])]
+        t += ["step-size-pipeline:" + ("skip" if case["stepsize_calls"][r["call"]]["skip"] else "value") for r in obs.get("stepsize", [])]
+        t += ["prior-simulation"] * bool(case.get("prior"))
+        if any(a.get("same_object") for comp in case["comps"] for a in comp):
+            t.append("same-callable-registered-twice")
         if case["mults"] is not None and min(case["mults"]) > 1:
             t.append("steps:nobody-on-minimum")
         acts = self._acts_by_tag(case)
@@ -1027,7 +1291,13 @@ class C14(Prop):
         first_src_pos = {}
         for k, r in enumerate(obs["reg"]):
             t.append(f"reg:{r['op']}:{'ok' if r['outcome'] == 'ok' else 'rejected'}")
-            t.append(f"callable:{r['op']}:{acts[(r['pipe'], r['tag'])].get('callable', 'function')}")
+            act = acts[(r["pipe"], r["tag"])]
+            t.append(f"callable:{r['op']}:{act.get('callable', 'function')}")
+            if r["op"] == "src":
+                t.append("source:" + act.get("source_kind", "probe"))
+                t.append("source-dtype:" + act.get("dtype", "float"))
+                t += ["register:combiner-defaulted"] * bool(act.get("default_combiner") and act["comb"] == "replace" and act.get("via") != "rate")
+                t += ["register:second-source-for-clock-pipeline"] * (r["pipe"] == STEP_PIPE)
             if r["op"] == "src" and r["pipe"] not in first_src_pos:
                 first_src_pos[r["pipe"]] = (k, r["comp"])
         for k, r in enumerate(obs["reg"]):
@@ -1052,7 +1322,12 @@ class C14(Prop):
                 t.append("modifiers:" + ("0" if n == 0 else "1" if n == 1 else "2" if n == 2 else "3+"))
                 t.append("index:" + ("none" if c["idx"] is None else "empty" if not c["idx"] else
                                      "permuted" if c["idx"] != sorted(c["idx"]) else "partial" if len(c["idx"]) < case["pop"] else "full"))
-                t.append("arg:" + ("keyword" if c["kw"] else "positional"))
+                t.append("arg:" + ("none" if c.get("noarg") else "keyword" if c["kw"] else "positional"))
+                t.append("handle:" + c.get("handle", "get_value"))
+                t.append("extra-arg:" + (c["extra"][0] if c.get("extra") else "none"))
+                t.append("index-kind:" + c.get("index_kind", "int64"))
+                if c["idx"] and len(set(c["idx"])) < len(c["idx"]):
+                    t.append("index:repeated-labels")
                 t.append("request:" + c["spec"])
                 if c["idx"] and set(c["idx"]) & set(rec["untracked"]):
                     t.append("request:includes-untracked")
